@@ -10,5 +10,5 @@ TRUSTED = ["Coq 8.16.1 kernel + vm_compute",
            "harness/pk/lg (scripted peer, reply script generator, RSA private keys, PEM oracle via encoding/pem + crypto/x509 + crypto/rsa of the Go standard library), tds/verif_hooks.go, ocaml/driver.ml, extraction (ExtrOcamlBasic only)"]
 ASSUMPTIONS_COMMON = [
     "RSA-OAEP, PEM and PKCS#1 parsing are not modelled: [keycap pem] (how many plaintext bytes the key takes, negative = unusable) and [enc] are parameters of the model; the harness supplies keycap from the Go standard library and blanks ciphertexts before comparing",
-    "goroutine scheduling and timers are not modelled: the harness ends the caller's context once nothing can arrive any more (peer idle, reader parked, queues empty for 400 ms) and classifies the error; a call that has not returned after 30 s is reported as class -2",
+    "goroutine scheduling and timers are not modelled: the harness ends the caller's context once nothing can arrive any more (peer idle, reader parked, queues empty during 100 consecutive 4 ms monitor ticks) and classifies the error; a call that has not returned after 30 s is reported as class -2",
     "packet size announcements are placed first in their reply by the generator (one arriving while Login is already past it would race with Login's next send)"]
